@@ -2,7 +2,7 @@
 environment construction, public-state snapshots and the C09 reference oracle."""
 from __future__ import annotations
 
-from typing import Any, Callable
+from typing import Any, Callable, Sequence
 
 import numpy as np
 
@@ -48,11 +48,14 @@ class RegistrySource:
         return g
 
 
-def make_env(n: int, comp_name: str, source: Callable, gap: Callable, budget: int | None):
+def make_env(n: int, comp_name: str, source: Callable, gap: Callable, budget: int | None,
+             initial_extra: Sequence[int] = ()):
+    """An ICG_Gym whose initially known coalitions are the minimal information plus `initial_extra` ids."""
     from incomplete_cooperative.coalitions import minimal_game_coalitions
     from incomplete_cooperative.icg_gym import ICG_Gym
     g = games.new_game(n, games.computer(comp_name))
-    return ICG_Gym(g, source, minimal_game_coalitions(g), gap, done_after_n_actions=budget)
+    initially = list(minimal_game_coalitions(g)) + games.coalitions(list(initial_extra))
+    return ICG_Gym(g, source, initially, gap, done_after_n_actions=budget)
 
 
 def env_snapshot(env: Any) -> dict[str, Any]:
